@@ -457,7 +457,7 @@ def run(ck):
     ck.level = "proof"
     if not ck.quick():
         ck.leanchecker(PROP_MODULES + ["UsualProofs.C03." + m for m in
-                                       ("Num", "Str", "RoundTrip", "BuildInv", "ParseWf", "Utf8Link")])
+                                       ("Num", "Str", "RoundTrip", "BuildInv", "ParseWf", "Utf8Link", "EndToEnd", "Forest", "Load")])
     ck.cov["trusted_base"] = [
         "Lean 4.33.0 kernel; axioms of the property theorems: subset of propext, Quot.sound, Classical.choice (audited this run)",
         "model lean/Usual/C03/{Render,Build}.lean is tied to usual/json.c (builder API, json_render, json_parse) by the "
